@@ -1104,10 +1104,10 @@ def run(ctx):
         head = [c for c in cases if not c[0].startswith("seq3")]
         tail = [c for c in cases if c[0].startswith("seq3")]
         ctx.rng.shuffle(tail)
-        cases = head + tail[:600]
-    for _ in range(ctx.n(2500, 15000)):
+        cases = head + tail[:400]
+    for _ in range(ctx.n(2000, 15000)):
         cases.append(("random", random_tree(ctx.rng, tabs, False)))
-    for _ in range(ctx.n(1500, 10000)):
+    for _ in range(ctx.n(1200, 10000)):
         cases.append(("malformed", random_tree(ctx.rng, tabs, True)))
     seen, coq_cases, infos = set(), [], []
     for kind, tree in cases:
@@ -1352,7 +1352,14 @@ META = {
                   "(run-text characters replaced by unique private-use code points must come out exactly once, in order) "
                   "for every schema-shaped generated tree.  The model is tied to the code by G-dumped tables "
                   "and by running model and implementation on ~7.6k (quick) / ~30k (thorough) parsed trees.",
-    "level_note": "Trusted: Coq kernel+VM; the G-dump printer and the ast extraction of the local dict literals; the "
-                  "hand-written model (validated differentially, exact strings); ElementTree parsing/find semantics and "
-                  "str.isspace are oracles; the DOCX/PPTX call sites are tested on generated documents only.",
+    "level_note": "Trusted: Coq kernel+VM; the G-dump printer and the ast extraction of the converter's dict literals "
+                  "(baseline fallback keeps the obligation broken); the hand-written model (validated differentially: exact "
+                  "strings AND the measured number of nested worker frames == conv_depth); ElementTree parsing/find semantics and "
+                  "str.isspace are oracles.  Totality is a theorem about unbounded recursion; CPython bounds it: beyond the "
+                  "interpreter's recursion limit the real converter raises RecursionError (open known finding "
+                  "deep-nesting-recursionerror; C19_depth_bounded/_equals_height_default say exactly how deep it recurses). "
+                  "The DOCX/PPTX call sites (incl. a14:m, mc:AlternateContent, oMathPara with several oMath, blank formulas, "
+                  "2000-deep formulas must end in a result or an ExtractionError) are tested on generated documents, not "
+                  "modelled: they are ~10 lines of ET iteration around zip/XML parsing done by third-party code.  Outside the "
+                  "calm fragment the form oracle is a Python twin of the model with the pending-radical state threaded.",
 }
